@@ -163,6 +163,9 @@ def instance_obligations(ctx, pid, which=('types', 'flags', 'tables')):
         ctx.obligation('GenConfig.v compiles', ok, out[-800:])
         if ok:
             ctx.coq_props(os.path.join(GEN_DIR, 'Inst_%s.v' % pid), extra_q=[(GEN_DIR, 'Gen')])
+    if 'tables' in which:
+        from . import gen_packets
+        gen_packets.layout_obligations(ctx, pid)
     ctx.extra.setdefault('generated_tables', {})['config'] = {'simple_types': len(cfg['simple']), 'flags': len(cfg['flags']),
                                                               'masks': cfg['masks'], 'packet_tables': {k: len(v) for k, v in tabs.items()}}
     return cfg, tabs
